@@ -8,7 +8,7 @@ for d in sorted(glob.glob('/verif/seeded/*/')):
     if m['id'].endswith('-a'):
         continue
     first = 'missed at first' in m['detection'].lower()
-    det = re.sub(r'(?i)missed at first', '**missed at first**', m['detection'].replace('|', '/'))
+    det = re.sub(r'(?i)\*{0,2}missed at first\*{0,2}', '**missed at first**', m['detection'].replace('|', '/'))
     rows.append((m['id'], m['needs_to_manifest'].replace('|', '/'), det, first))
 out = ['| id | needs | caught by (quick, seed 1) |', '|---|---|---|']
 for r in rows:
@@ -16,7 +16,7 @@ for r in rows:
 n_all = len(glob.glob('/verif/seeded/*/'))
 missed = [r[0] for r in rows if r[3]]
 out.append('')
-out.append('%d seeded changes of waves 2 and later; %d of them exposed a blind spot of a generator or scenario set when first tried (%s), which was then widened. `regress_mutants.sh` re-applies all %d kept changes to /repo in turn and runs the quick check of the property each breaks; all are detected on the current tree.' % (len(rows), len(missed), ', '.join(missed), n_all))
+out.append('%d seeded changes of waves 2 and later; %d of them exposed a blind spot of a generator or scenario set when first tried (%s), which was then widened. `regress_mutants.sh` applies each of the %d kept changes to an exported copy of the library in turn and runs the quick check of the property each breaks; all are detected on the current tree.' % (len(rows), len(missed), ', '.join(missed), n_all))
 s = open('/verif/DESIGN.md').read()
 b, e = '<!-- seeded-table-begin -->', '<!-- seeded-table-end -->'
 assert b in s and e in s
